@@ -634,6 +634,14 @@ def _method_rules(rep, repo, app, route):
         mcfg.must_pass(mcfg.nodes_of_all(returns_of(mmf)), mcfg.entry, mcfg.exit, normal_only=True)
     rep.check('R06.d', fkey(mmf), ok, 'a request is refused only if methods is non-empty and METHOD.upper() is not in it' if ok else
               'match_method no longer compares the upper-cased request method against a non-empty method set', route, mmf.node)
+    # ... and what is compared is the method of the request: the parameter is not re-bound on the way to the test (a method
+    # translated / replaced first is looked up under another name than the one the route lists)
+    rebinds = [n for n in walk_body(mmf.node) if isinstance(n, ast.Name) and n.id == mp and isinstance(n.ctx, (ast.Store, ast.Del))]
+    rep.check('R06.d', fkey(mmf, 'the request method itself'), not rebinds,
+              'the method tested against the route\'s set is the request\'s own' if not rebinds else
+              'match_method re-binds its parameter %r before the membership test: the route\'s method set is asked about another method '
+              'than the one requested (a route listing the requested method can refuse it)' % mp, route,
+              stmt_of(route, rebinds[0]) if rebinds else mmf.node)
     for q in ('GET', 'POST', 'PUT', 'DELETE', 'HEAD', 'OPTIONS', 'TRACE', 'CONNECT', 'PATCH'):
         ci = route.classes.get(q)
         if ci is None:
